@@ -436,7 +436,10 @@ def judge_case(lines, case, ifmask):
                     judge_hit(orig)
                 finally:
                     sink[0], sink[1] = V, S
-                trials.append(((1 if tv else 0, k), tv, ts))
+                gotset = set((e["fam"], e["addr"]) for e in g["ents"])
+                wantset = set((f, a) for (f, a, ttl) in orig["addrs"] if fam in (0, f))
+                # prefer the candidate with the same address set, then a superset of what was returned, then fewer complaints, then newer
+                trials.append(((0 if gotset == wantset else (1 if gotset <= wantset else 2), 1 if tv else 0, k), tv, ts))
                 if not tv:
                     break
             best = min(trials, key=lambda x: x[0])
